@@ -66,3 +66,35 @@ def c12(work, tier, seed):
                                owns=lambda v: guard_property(v["guard"]) == "C12", jobs=12)
     out.coverage["policy_model_states"] = pol.get("distinct")
     return out
+
+
+# ------------------------------------------------------------------ C05
+
+AUTHZ = ["absent", "empty", "bare-ntlm", "bare-negotiate", "bare-basic", "trunc-scheme", "embedded-scheme", "wrongcase-basic", "wrongcase-ntlm", "basic-right", "basic-right-colonpw",
+         "basic-wrongpw", "basic-unknown", "basic-emptyuser", "basic-nocolon", "basic-notbase64", "basic-locked", "two-invalid", "two-valid-first", "ntlm-right", "negotiate-ntlm-right",
+         "ntlm-wrongpw", "ntlm-unknown", "ntlm-two-conns", "ntlm-auth-first", "ntlm-garbage", "negotiate-krb-garbage"]
+METHODS = ["RDG_OUT_DATA", "RDG_IN_DATA", "GET", "POST", "PUT", "OPTIONS"]
+
+
+def c05(work, tier, seed):
+    dot = work.path("front.dot")
+    design = design_check("Front", "MC_Front.cfg", work, workers=4, timeout=300, extra=["-dump", "dot", dot])
+    nodes, roots, edges = parse_dot(dot)
+    msets = sorted({tuple(sorted(parse_tla_value(state_vars(nodes[n])["m"]))) for n in nodes})
+    rng = random.Random(seed)
+    scripts = []
+    for ms in msets:
+        cfg = {"tokenAuth": "openid" in ms, "smartCard": False, "auths": list(ms), "auth": "", "sel": "roundrobin", "hosts": [["H1", ":", "PA"]], "verifyIp": True, "idle": 0,
+               "tls": "local" in ms}
+        for az in AUTHZ:
+            methods = METHODS if tier == "thorough" else (["RDG_OUT_DATA", "RDG_IN_DATA"] if az in ("basic-right", "ntlm-right", "absent", "negotiate-ntlm-right") else [METHODS[stable_hash(az + str(ms) + str(seed)) % len(METHODS)]])
+            for mt in methods:
+                scripts.append({"id": "h%05d" % len(scripts), "cfg": cfg, "method": mt, "authz": az})
+    out, rep, res = fa.generic("C05", work, tier, seed, "front", "FrontTrace", scripts, design,
+                               lambda v: "%s/%s/%s" % (v["guard"], v["a"], v["b"]),
+                               "Front.tla: ShouldReach / Challenges over every startable mechanism set x request class (design). Conformance: the real binary (TLS where local auth needs it) with the real rdpgw-auth (stub PAM, NTLM "
+                               "user file) behind it, one instance per startable subset of {openid, kerberos, local, ntlm} enumerated by TLC; 27 Authorization classes (absent, empty, bare/truncated/embedded/wrong-case schemes, right and "
+                               "wrong Basic and NTLM credentials, NTLM on two connections or without negotiate, several headers, garbage SPNEGO) x HTTP methods; 'reached the handler' and the user it was reached as come from the gw.enter hook; "
+                               "Kerberos tickets are exercised only negatively (no KDC in the sandbox): the only-if direction is decided for SPNEGO, not the if direction", jobs=12)
+    out.coverage["mechanism_sets"] = ["+".join(m) for m in msets]
+    return out
